@@ -151,6 +151,40 @@ impl<'a> Elf<'a> {
         self.soname_at(0)
     }
 
+    /// SONAME out of a memory image (segments sit at their virtual addresses relative to the load
+    /// base; d_ptr entries may have been relocated to absolute addresses by the loader)
+    pub fn soname_mem(&self, load_base: u64) -> Option<String> {
+        let dynp = self.phs.iter().find(|p| p.ty == 2)?;
+        let d = self.b.get(dynp.vaddr as usize..(dynp.vaddr + dynp.filesz) as usize)?;
+        let mut strtab = None;
+        let mut strsz = None;
+        let mut so = None;
+        let mut i = 0;
+        while i + 16 <= d.len() {
+            let tag = u64a(d, i)?;
+            let val = u64a(d, i + 8)?;
+            match tag {
+                0 => break,
+                5 => strtab = Some(val),
+                10 => strsz = Some(val),
+                14 => so = Some(val),
+                _ => {}
+            }
+            i += 16;
+        }
+        let (mut strtab, strsz, so) = (strtab?, strsz?, so?);
+        if strtab >= load_base {
+            strtab -= load_base;
+        }
+        if so >= strsz {
+            return None;
+        }
+        let tab = self.b.get(strtab as usize..(strtab + strsz) as usize)?;
+        let tail = &tab[so as usize..];
+        let end = tail.iter().position(|c| *c == 0)?;
+        Some(String::from_utf8_lossy(&tail[..end]).into_owned())
+    }
+
     /// `load_base`: when the image is a memory image whose d_ptr entries were relocated by the
     /// loader, absolute addresses >= load_base are taken relative to it
     pub fn soname_at(&self, load_base: u64) -> Option<String> {
